@@ -77,7 +77,10 @@ def gen_scenario(rng, focus):
         # crossings exactly on step boundaries: y' handled by the time event on a dyadic grid
         method, dt = "RK4Solver", 0.25
         t0, tf = (0.0, 2.0) if not backward else (2.0, 0.0)
-        evs = [eventsim.make_event("time", 0.5, 1.0, 0, False), eventsim.make_event("time", 0.75 if not backward else 1.25, 1.0, 0, False)]
+        # (for C09: the later of the two may be terminal - a stop exactly on a step end, in either direction)
+        term_on_grid = focus in ("C09", "all") and rng.random() < 0.6
+        first, second = (0.5, 0.75) if not backward else (1.25, 0.5)
+        evs = [eventsim.make_event("time", first, 1.0, 0, False), eventsim.make_event("time", second, 1.0, 0, term_on_grid)]
     elif rng.random() < 0.2:
         # several functions with the SAME zeros (one level, different scales / orientations), crossed repeatedly: every one of them has
         # to be reported at every crossing, however many share the instant
@@ -125,6 +128,19 @@ def slow_scenarios(rng):
             c = -math.sin(omega * (tc - t0))
             evs = [eventsim.make_event("y1", c, s_ * rng.choice([1, -1]), 0, False) for s_ in scales]
             out.append((dict(method=method, t0=t0, tf=tf, dt=10.0, dense=rng.random() < 0.5, omega=omega), evs))
+    return out
+
+
+def boundary_stop_scenarios(rng):
+    """every C09 run: a terminal event whose root lies exactly on a step end (fixed step on a dyadic grid), forward and backward,
+    alone and after a non-terminal event on an earlier grid point, with and without dense output"""
+    out = []
+    for (t0, tf) in [(0.0, 2.0), (2.0, 0.0), (-1.0, 1.0), (1.0, -1.0)]:
+        d = 1.0 if tf > t0 else -1.0
+        for with_other in (False, True):
+            stop = t0 + d * 0.75
+            evs = ([eventsim.make_event("time", t0 + d * 0.5, 1.0, 0, False)] if with_other else []) + [eventsim.make_event("time", stop, rng.choice([1.0, -1.0]), 0, True)]
+            out.append((dict(method=rng.choice(["RK4Solver", "SymplecticEulerSolver"]), t0=t0, tf=tf, dt=0.25, dense=rng.random() < 0.5), evs))
     return out
 
 
@@ -334,6 +350,8 @@ def run_focus(ctx, focus, n_quick, n_thorough):
     rng = ctx.rng
     lines, pending = [], []
     fixed = [x for _ in range(3 if ctx.quick() else 8) for x in slow_scenarios(rng)] if focus in ("C08", "all") else []
+    if focus in ("C09", "all"):
+        fixed = fixed + boundary_stop_scenarios(rng)
     for i in range(n_quick if ctx.quick() else n_thorough):
         sc, evs = fixed[i] if i < len(fixed) else gen_scenario(rng, focus)
         ode, spy, exc = eventsim.run_case(method_class(sc["method"]), sc["t0"], sc["tf"], sc["dt"], evs, sc["dense"], omega=sc.get("omega", 1.0))
